@@ -68,8 +68,11 @@ class FarmWorld:
         vm.setbal(own, self.rew, 0, BIG)
         self.first_epoch = self.ep
         self.nonces = []            # every farm-token nonce ever seen
+        self.attr = {}              # nonce -> (rps, epoch, comp, amt, owner id) as read from the real token
+        self.donated = 0
         self.shadow = dict(rate=0, produce=False, pct=0, factors=False, last=0, state=0, minep=3, pen=100)
         self.last = self.observe()
+        self.last["attrs"] = {}
 
     def close(self):
         self.vm.close()
@@ -143,6 +146,7 @@ class FarmWorld:
             assert r.ok
             return None
         pre_pool = self.last["pool"]
+        pre_cfg = dict(self.shadow)
         pays = lambda ps: [(FARM, n, x) for (n, x) in ps]
         outs, b, settles = [], 0, False
         if k == "Enter":
@@ -224,6 +228,12 @@ class FarmWorld:
         if r.ok and k in ("Enter", "Claim", "Compound", "Merge"):
             n = outs[0]
             o["new_attrs"][n] = self.attrs_of(n)
+            self.attr[n] = o["new_attrs"][n]
+        if r.ok and k == "TopUp":
+            self.donated += op[1]
+        o["attrs"] = dict(self.attr)
+        o["donated"] = self.donated
+        o["cfg"] = dict(self.shadow)
         if r.ok:
             sh = self.shadow
             if settles and self.blk > sh["last"]:
@@ -237,7 +247,9 @@ class FarmWorld:
             elif k == "SetMinEpochs": sh["minep"] = op[2]
             elif k == "SetPenalty": sh["pen"] = op[2]
         o["pre"] = self.last
-        self.last = {x: o[x] for x in ("supply", "reserve", "rps", "last", "bal_rew", "bal_farming", "pool", "state", "utot", "held", "farm_held")}
+        o["pre_cfg"] = pre_cfg
+        o["settles"] = settles
+        self.last = {x: o[x] for x in ("supply", "reserve", "rps", "last", "bal_rew", "bal_farming", "pool", "state", "utot", "held", "farm_held", "attrs")}
         return o
 
 
